@@ -11,7 +11,7 @@ WL_ASSUME = [
 
 # kind "rapid": a rapid.Check property sharded by seed; counts are total cases over all shards.
 # kind "enum":  a deterministic Go test that enumerates a space itself, sharded by VERIF_SHARD/VERIF_NSHARDS.
-HOOK_COMMITS = []
+HOOK_COMMITS = ["b799385"]
 NOT_YET = {}
 
 PROPS = {
@@ -177,6 +177,42 @@ PROPS = {
              "Oracle: file valid under the C02 walker with one row group per non-empty batch (num_rows = batch size, FileMetaData.num_rows = sum, every byte accounted for), records decoded "
              "by pqref and by the generated reader equal concat(batches), Rows() equal. Non-trivial: an empty Write next to a written batch, a batch of exactly k*max rows, or rows "
              "pending at Close; distinct by word/page size/codec (H1) or case hash (H2). 'exhaustive' refers to H1.",
+    ),
+    "C17": dict(
+        level="exploration",
+        technique="exhaustive enumeration of the input space against a generic LSB-first reference packer (differential) plus pack/unpack round trip",
+        level_text="Exhaustive for the stated bound: every 8-tuple of w-bit values for w = 1..3 in both tiers and for w = 4 in the thorough tier (quick: every 13th tuple), "
+                   "and every w-byte group for w <= 3; compared with a 5-line generic reference of the specification's layout.",
+        level_note="Trusted: the reference packer (value i occupies bits [i*w,(i+1)*w) of the little-endian byte string). Reached through the verif-tagged hooks VerifBitPack/VerifBitUnpack "
+                   "(thin calls to internal/bitpack); the call sites inside the level codec are exercised by C07.",
+        fixtures=[],
+        gen_anchored=False,
+        exhaustive_thorough=True,
+        stages=[dict(test="TestC17", kind="enum", quick=1, thorough=1, timeout_thorough=3600)],
+        replay="TestReplayC17",
+        rule="enumeration, seed-independent: for w in 1..4 every 8-tuple g of w-bit values (quick: for w=4 every 13th tuple, which still puts every value in every position): "
+             "Pack(g) must equal the reference layout byte for byte and have w bytes, Unpack(Pack(g)) must equal g; for w <= 3 every w-byte group b: Unpack(b) values < 2^w and "
+             "Pack(Unpack(b)) == b (for w = 4 this follows from the complete tuple enumeration because the reference is a bijection onto 4-byte groups). Non-trivial: every group except the all-zero one; all enumerated groups are distinct.",
+    ),
+    "C07": dict(
+        level="exploration",
+        technique="bounded-exhaustive enumeration plus property-based testing (rapid) of the level codec against a strict specification decoder and a segmentation-driven specification encoder",
+        level_text="Exploration: all level sequences up to a length bound per width (exhaustive for that bound) and rapid-generated run-structured sequences of up to 42 000 values around the "
+                   "8-value, 63-group and multi-byte-header boundaries, each paired with random legal segmentations for the decode direction; both through the verif hooks and through "
+                   "the public column API (NewOptionalField / DoWrite / DoRead).",
+        level_note="Trusted: pqref's strict hybrid decoder and segmentation-driven encoder (spec-derived; they are checked against each other on every case). "
+                   "Well-formed = exact length prefix, run headers with count >= 1, RLE value < 2^w, < 8 padding values and only after a final bit-packed run.",
+        fixtures=[],
+        gen_anchored=False,
+        exhaustive_quick=True, exhaustive_thorough=True,
+        stages=[dict(test="TestC07Enum", kind="enum", quick=1, thorough=1, timeout_thorough=3600), dict(test="TestC07", kind="rapid", quick=48000, thorough=800000, timeout_thorough=5400)],
+        replay="TestReplayC07",
+        rule="(S1, exhaustive, seed independent) all sequences of width-w levels of length <= 16/9/6/5 (quick) or <= 18/10/7/6 (thorough) for w = 1/2/3/4: encoder output strictly decoded "
+             "== input, library decode(encode) == input (+ < 8 padding, consumed = 4+len), library decoder on the all-bit-packed and on the maximal-RLE foreign encoding, every 7th also "
+             "through the column API; (S2/S3, rapid) run-structured sequences (run lengths from {1,2,3,7,8,9,15,16,17,63,64,65,503,504,505,1000,20000} or 1..40, noise stretches) with a "
+             "drawn legal segmentation (RLE runs of any length >= 1, bit-packed runs of any group count incl. > 63, drawn padding value): same oracles, and for <= 6000 values the same "
+             "through OptionalField.DoWrite (page parsed by pqref) and OptionalField.DoRead (page built by pqref) for definition and repetition levels. "
+             "Non-trivial: a stream with both run kinds, a bit-packed run >= 63 groups, or a multi-byte run header (S2/S3); length >= 8 (S1); distinct by case hash / enumeration index. 'exhaustive' refers to S1.",
     ),
 }
 
